@@ -236,6 +236,7 @@ type Adversary struct {
 }
 
 type AdvOpts struct {
+	NoEndpoint  bool // the adversary's ENR carries neither ip nor udp (it still talks from Addr)
 	Key         *ecdsa.PrivateKey
 	Addr        netip.AddrPort
 	Versions    []uint8
@@ -254,8 +255,10 @@ func (h *Hub) StartAdversary(o AdvOpts) (*Adversary, error) {
 		return nil, err
 	}
 	ln := enode.NewLocalNode(db, o.Key)
-	ln.SetStaticIP(o.Addr.Addr().AsSlice())
-	ln.SetFallbackUDP(int(o.Addr.Port()))
+	if !o.NoEndpoint {
+		ln.SetStaticIP(o.Addr.Addr().AsSlice())
+		ln.SetFallbackUDP(int(o.Addr.Port()))
+	}
 	if o.Versions != nil {
 		ln.Set(versionsEntry(o.Versions))
 	}
